@@ -31,7 +31,7 @@ EXPLANATION = (
     "ast.unparse'd and pushed through the real parse_function (replay). (c) For every operator shape of depth <= 2 (and a pairwise-nesting subset of depth 3) over + - * / **2 unary- < >= max min sdiv exp floor, scalar and "
     "length-2 array leaves, real fcn(**deps) == independent evaluation with a/b := (a == 0 ? 0 : a/b); set(dep_list) == free names. Bounds as stated; outside: deeper nesting, strings >= 1800 chars."
 )
-GROUP_TIMEOUT = {"quick": 900, "thorough": 3000}
+GROUP_TIMEOUT = {"quick": 1800, "thorough": 3600}
 
 # ----------------------------------------------------------------------------------------------------------------
 # grammar from the interpreter
